@@ -43,7 +43,7 @@ func printManifest() {
 		Reason     string `json:"reason"`
 	}
 	var checks []check
-	var nas []na
+	nas := []na{}
 	var served []string
 	for _, id := range allPropertyIDs() {
 		pr := propByID(id)
